@@ -25,7 +25,7 @@ def method_stubs(P, cls_qual, names, extra=None):
             defaults = dict()
             ps = [p.arg for p in a.posonlyargs + a.args if p.arg != 'self']
             for p, d in zip(ps[len(ps) - len(a.defaults):], a.defaults):
-                defaults[p] = interp.Machine({}).ev(d)
+                defaults[p] = interp.Machine({}, None, m.resolver).ev(d)
             for p, v in zip(params, args):
                 env[p] = v
             for k, v in kw.items():
@@ -36,7 +36,7 @@ def method_stubs(P, cls_qual, names, extra=None):
                         env[p] = defaults[p]
                     else:
                         raise interp.Unknown(f'argument {p} of {name}')
-            sub = interp.Machine(env, m.stubs)
+            sub = interp.Machine(env, m.stubs, m.resolver)
             sub.steps = m.steps
             try:
                 sub.run(f.node.body)
